@@ -366,4 +366,11 @@ func init() {
 			return js
 		},
 	})
+	// experimental, NOT registered in MANIFEST: the Throttling burst bound under the lax clock
+	reg(&PropSpec{
+		ID: "X13", Level: "model_checking", Explanation: "experimental: Throttling burst bound (see DESIGN.md 17)", Assumptions: bmcAssumptions,
+		Jobs: func(tier string) []JobSpec {
+			return []JobSpec{{Group: "pipe", Harness: "VThrottleRate", Mode: "bmc", Params: map[string]int{"ops": 1, "cap": 0, "n": 4, "interval": 10, "clock": 1}, K: 40, Timeout: 1800000}}
+		},
+	})
 }
